@@ -210,7 +210,7 @@ def obligations(tier: str):
         cfg.setdefault("ops", [])
         obs.append(Ob("pipeline", cfg, name=name, timeout=timeout * (8 if T else 1), path_timeout=60))
 
-    for cls in ("RI", "RF", "RS", "RW", "RV", "RD", "RL"):
+    for cls in ("RI", "RF", "RS", "RW", "RV", "RD", "RL", "RD2"):
         pipe(f"tree_f5_{cls}_create", fixture="f5", grammar_fn="g_" + cls, rep="tree", decider="grow", max_depth=2)
     pipe("tree_f5ctx_create", fixture="f5ctx", rep="tree", decider="grow", max_depth=3 if T else 2)
     if T:
@@ -222,7 +222,7 @@ def obligations(tier: str):
     pipe("tree_f2_crossover", fixture="f2", rep="tree", decider="grow", max_depth=2, ops=["crossover"]) if T else None
     for rep in ("ge", "sge", "dsge"):
         gl = 6 if rep == "ge" else 2
-        for cls in ("RI", "RD", "RS") + (("RF", "RW", "RV", "RL") if T else ()):
+        for cls in ("RI", "RD", "RD2", "RS") + (("RF", "RW", "RV", "RL") if T else ()):
             pipe(f"{rep}_f5_{cls}_create", fixture="f5", grammar_fn="g_" + cls, rep=rep, decider="grow", max_depth=3, gene_length=gl)
         pipe(f"{rep}_f2_create", fixture="f2", rep=rep, decider="grow", max_depth=2 if rep != "dsge" else 3, gene_length=gl)
     pipe("stack_f1_create", fixture="f1", rep="stack", gene_length=3 if not T else 4, failures_limit=1, gene_fuel=8 if not T else 12, timeout=150)
